@@ -58,6 +58,9 @@ func (o *Out) End() {
 	o.mu.Unlock()
 }
 
+// SetNext makes the next Begin use case number n.
+func (o *Out) SetNext(n int) { o.mu.Lock(); o.n = n - 1; o.mu.Unlock() }
+
 func (o *Out) Flush() { o.mu.Lock(); o.w.Flush(); o.mu.Unlock() }
 
 // Rng is splitmix64: every random choice of a run derives from one seed.
